@@ -117,8 +117,20 @@ package proto
 //@ spec func lineClean(p bytes) bool = (p[0] == 43 || p[0] == 45 || p[0] == 58) ==> (forall i int :: 1 <= i && i < len(p)-2 ==> p[i] != 13 && p[i] != 10)
 //@ spec func clean(c int) int = ((c == 13 || c == 10) ? 32 : c)
 
+// Canonical encodings as predicates over a byte array a at offset o (used both for serializer outputs, a = elems(result), and for
+// the parser's input stream, a = S_in): the round-trip lemmas in lemmas_verif.go connect the two.
+//@ spec func noCRLF(b bytes) bool = forall j int :: 0 <= j && j < len(b) ==> b[j] != 13 && b[j] != 10
+//@ spec func encLine(a intarray, o int, m ref) bool = a[o] == typeByte(m.Type) && (forall i int :: o + 1 <= i && i < o + 1 + len(m.bytes) ==> a[i] == m.bytes[i - (o + 1)]) && a[o + 1 + len(m.bytes)] == 13 && a[o + 2 + len(m.bytes)] == 10
+//@ spec func encLineLen(m ref) int = len(m.bytes) + 3
+//@ spec func encNull(a intarray, o int) bool = a[o] == 36 && a[o + 1] == 45 && a[o + 2] == 49 && a[o + 3] == 13 && a[o + 4] == 10
+//@ spec func encBulk(a intarray, o int, m ref) bool = a[o] == 36 && (forall i int :: o + 1 <= i && i < o + 1 + len(itoa(len(m.bytes))) ==> a[i] == itoa(len(m.bytes))[i - (o + 1)]) && a[o + 1 + len(itoa(len(m.bytes)))] == 13 && a[o + 2 + len(itoa(len(m.bytes)))] == 10 && (forall i int :: o + 3 + len(itoa(len(m.bytes))) <= i && i < o + 3 + len(itoa(len(m.bytes))) + len(m.bytes) ==> a[i] == m.bytes[i - (o + 3 + len(itoa(len(m.bytes))))]) && a[o + 3 + len(itoa(len(m.bytes))) + len(m.bytes)] == 13 && a[o + 4 + len(itoa(len(m.bytes))) + len(m.bytes)] == 10
+//@ spec func encBulkLen(m ref) int = 1 + len(itoa(len(m.bytes))) + 2 + len(m.bytes) + 2
+
 //@ func (*Message).RESPBytes
 //@ assigns nothing
+//@ ensures {C01} isLine(msg.Type) && noCRLF(msg.bytes) ==> encLine(elems(result0), off(result0), msg) && len(result0) == encLineLen(msg)
+//@ ensures {C01} msg.Type == BulkMessage && msg.bytes == nil ==> encNull(elems(result0), off(result0)) && len(result0) == 5
+//@ ensures {C01} msg.Type == BulkMessage && msg.bytes != nil ==> encBulk(elems(result0), off(result0), msg) && len(result0) == encBulkLen(msg)
 //@ ensures {C04} err == nil ==> frameHead(result0)
 //@ ensures {C04} err == nil ==> lineClean(result0)
 //@ ensures {C04} err != nil ==> result0 == nil
@@ -234,6 +246,21 @@ package proto
 //@ ensures err != nil ==> !errors.Is(err, ErrEOM) || err == ErrEOM
 
 // ---------------------------------------------------------------- parser.go
+// The stream S_in is fixed (no contract assigns it); only the cursor S_pos moves. S_cr(p) is the position of the first CR
+// at or after p (defined by description; some position >= S_end if there is none before the end of the stream).
+// A "line" at p is S_in[p .. lineEnd(p)); after reading it (and the CR LF, as far as the stream delivers them) the cursor is afterLine(p).
+// D_lo[m], D_hi[m]: the extent of the stream the message m was decoded from (ghost, recorded by Parser.Next).
+
+//@ ghost var N_fail int
+//@ ghost map D_lo ref int
+//@ ghost map D_hi ref int
+//@ spec func S_cr(p int) int
+//@ axiom S_cr_ge: forall p int :: S_cr(p) >= p
+//@ axiom S_cr_first: forall p int, i int :: p <= i && i < S_cr(p) ==> S_in[i] != 13
+//@ axiom S_cr_hit: forall p int :: S_cr(p) < S_end ==> S_in[S_cr(p)] == 13
+//@ spec func lineEnd(p int) int = (S_cr(p) < S_end ? S_cr(p) : S_end)
+//@ spec func afterLine(p int) int = (S_cr(p) + 2 <= S_end ? S_cr(p) + 2 : S_end)
+//@ spec func lineStr(p int) string = arrstr(S_in, p, lineEnd(p) - p)
 
 //@ func (*Parser).nextLengthBytes
 //@ requires parser.reader != nil
@@ -266,6 +293,8 @@ package proto
 //@ ensures {C01,C02} err == nil && old(S_pos) + len(result0) < S_end ==> S_in[old(S_pos)+len(result0)] == 13
 //@ ensures {C02} err == nil && old(S_pos) + len(result0) + 2 <= S_end ==> S_pos == old(S_pos) + len(result0) + 2
 //@ ensures {C11} err == nil && S_pos < old(S_pos) + len(result0) + 2 ==> S_pos == S_end
+//@ ensures {C01,C02} err == nil ==> len(result0) == lineEnd(old(S_pos)) - old(S_pos) && S_pos == afterLine(old(S_pos))
+//@ ensures {C01,C02} err == nil ==> streq(string(result0), lineStr(old(S_pos)))
 //@ loop 0
 //@   invariant 0 <= n && n <= 1 && S_pos <= S_end && 0 <= buf_len[&readBytes]
 //@   invariant (n == 1 && err == nil) ==> S_pos == old(S_pos) + buf_len[&readBytes] + 1 && readByte[0] == S_in[S_pos-1]
@@ -285,35 +314,61 @@ package proto
 //@ ensures {C06,C11} old(S_pos) <= S_pos && S_pos <= S_end
 //@ ensures {C06} (err == nil && result0 != nil) || (err != nil && result0 == nil)
 //@ ensures {C01} err == nil ==> fresh(result0) && result0.Type == BulkMessage && result0.array == nil
+//@ ensures {C01,C02} err == nil ==> atoiOK(lineStr(old(S_pos)))
+//@ ensures {C01,C02} err == nil && atoi(lineStr(old(S_pos))) < 0 ==> result0.bytes == nil && S_pos == afterLine(old(S_pos))
+//@ ensures {C01,C02} err == nil && atoi(lineStr(old(S_pos))) >= 0 ==> result0.bytes != nil && len(result0.bytes) == atoi(lineStr(old(S_pos))) && S_pos == afterLine(old(S_pos)) + len(result0.bytes) + 2
+//@ ensures {C01,C02} err == nil && atoi(lineStr(old(S_pos))) >= 0 ==> forall i int :: 0 <= i && i < len(result0.bytes) ==> result0.bytes[i] == S_in[afterLine(old(S_pos)) + i]
+//@ ensures {C01,C02} err == nil && atoi(lineStr(old(S_pos))) >= 0 ==> S_in[S_pos - 2] == 13 && S_in[S_pos - 1] == 10
+//@ ensures {C02} atoiOK(lineStr(old(S_pos))) && atoi(lineStr(old(S_pos))) < 0 ==> err == nil
+//@ ensures {C02} atoiOK(lineStr(old(S_pos))) && 0 <= atoi(lineStr(old(S_pos))) && atoi(lineStr(old(S_pos))) <= MaxBulkLength && afterLine(old(S_pos)) + atoi(lineStr(old(S_pos))) + 2 <= S_end && S_in[afterLine(old(S_pos)) + atoi(lineStr(old(S_pos)))] == 13 && S_in[afterLine(old(S_pos)) + atoi(lineStr(old(S_pos))) + 1] == 10 ==> err == nil
 
 //@ func (*Parser).nextArrayMessage
 //@ requires parser.reader != nil
 //@ requires 0 <= S_pos && S_pos <= S_end && S_end <= 17592186044416
-//@ assigns S_pos, requests
+//@ assigns S_pos, requests, N_fail
 //@ decreases 3 * (S_end - S_pos) + 2
 //@ ensures {C06,C11} old(S_pos) <= S_pos && S_pos <= S_end
 //@ ensures {C06} (err == nil && result0 != nil) || (err != nil && result0 == nil)
 //@ ensures {C01} err == nil ==> fresh(result0) && result0.Type == ArrayMessage && result0.array != nil
 //@ ensures {C06,C11} err == nil ==> forall k int :: 0 <= k && k < len(result0.array.msgs) ==> result0.array.msgs[k] != nil
+//@ ensures {C02} N_fail >= old(N_fail)
+//@ ensures {C02} atoiOK(lineStr(old(S_pos))) && atoi(lineStr(old(S_pos))) <= MaxArraySize && N_fail == old(N_fail) ==> err == nil
+//@ ensures {C01,C02} err == nil ==> result0.bytes == nil && atoiOK(lineStr(old(S_pos))) && len(result0.array.msgs) == (atoi(lineStr(old(S_pos))) < 0 ? 0 : atoi(lineStr(old(S_pos))))
+//@ ensures {C01,C02} err == nil && len(result0.array.msgs) == 0 ==> S_pos == afterLine(old(S_pos))
+//@ ensures {C01,C02} err == nil && len(result0.array.msgs) > 0 ==> D_lo[result0.array.msgs[0]] == afterLine(old(S_pos)) && S_pos == D_hi[result0.array.msgs[len(result0.array.msgs) - 1]]
+//@ ensures {C01,C02} err == nil ==> forall k int :: 0 <= k && k + 1 < len(result0.array.msgs) ==> D_lo[result0.array.msgs[k + 1]] == D_hi[result0.array.msgs[k]]
 
 //@ func newArrayWithParser
 //@ requires parser != nil && parser.reader != nil
 //@ requires 0 <= S_pos && S_pos <= S_end && S_end <= 17592186044416
 //@ flag alloc_bounded_by MaxArraySize
-//@ assigns S_pos, requests
+//@ assigns S_pos, requests, N_fail
 //@ decreases 3 * (S_end - S_pos) + 1
 //@ ensures {C06,C11} old(S_pos) <= S_pos && S_pos <= S_end
 //@ ensures {C06} (err == nil && result0 != nil) || (err != nil && result0 == nil)
 //@ ensures {C06} err == nil ==> fresh(result0) && result0.index == 0
 //@ ensures {C06,C11} err == nil ==> forall k int :: 0 <= k && k < len(result0.msgs) ==> result0.msgs[k] != nil
+//@ ensures {C01,C02} err == nil ==> atoiOK(lineStr(old(S_pos))) && len(result0.msgs) == (atoi(lineStr(old(S_pos))) < 0 ? 0 : atoi(lineStr(old(S_pos))))
+//@ ensures {C02} N_fail >= old(N_fail)
+//@ ensures {C02} atoiOK(lineStr(old(S_pos))) && atoi(lineStr(old(S_pos))) <= MaxArraySize && N_fail == old(N_fail) ==> err == nil
+//@ ensures {C01,C02} err == nil && len(result0.msgs) == 0 ==> S_pos == afterLine(old(S_pos))
+//@ ensures {C01,C02} err == nil && len(result0.msgs) > 0 ==> D_lo[result0.msgs[0]] == afterLine(old(S_pos)) && S_pos == D_hi[result0.msgs[len(result0.msgs) - 1]]
+//@ ensures {C01,C02} err == nil ==> forall k int :: 0 <= k && k + 1 < len(result0.msgs) ==> D_lo[result0.msgs[k + 1]] == D_hi[result0.msgs[k]]
 //@ loop 0
 //@   invariant 0 <= n && n <= arraySize && len(msgs) == arraySize && fresh(msgs)
 //@   invariant old(S_pos) <= S_pos && S_pos <= S_end
-//@   invariant forall k int :: 0 <= k && k < n ==> msgs[k] != nil
+//@   invariant forall k int :: 0 <= k && k < n ==> msgs[k] != nil && allocated(msgs[k])
+//@   invariant {C01,C02} n == 0 ==> S_pos == afterLine(old(S_pos))
+//@   invariant {C02} N_fail == old(N_fail)
+//@   invariant {C01,C02} n > 0 ==> D_lo[msgs[0]] == afterLine(old(S_pos)) && S_pos == D_hi[msgs[n - 1]]
+//@   invariant {C01,C02} forall k int :: 0 <= k && k + 1 < n ==> D_lo[msgs[k + 1]] == D_hi[msgs[k]]
 //@   decreases arraySize - n
 
 //@ func (*Parser).Next
 //@ defines requests: old(requests) + ((result0 != nil && err == nil) ? 1 : 0)
+//@ defines N_fail: old(N_fail) + ((err != nil || result0 == nil) ? 1 : 0)
+//@ defines D_lo[result0]: old(S_pos)
+//@ defines D_hi[result0]: S_pos
 //@ requires parser.reader != nil
 //@ requires 0 <= S_pos && S_pos <= S_end && S_end <= 17592186044416
 //@ assigns S_pos
@@ -322,3 +377,75 @@ package proto
 //@ ensures {C06} (result0 != nil && err == nil) || (result0 == nil && err == nil && old(S_pos) == S_end) || (result0 == nil && err != nil)
 //@ ensures {C06,C11} err == nil && result0 != nil && result0.Type == ArrayMessage ==> result0.array != nil && forall k int :: 0 <= k && k < len(result0.array.msgs) ==> result0.array.msgs[k] != nil
 //@ ensures {C02} err == nil && result0 != nil ==> old(S_pos) < S_pos
+//@ ensures {C01,C02} err == nil && result0 != nil ==> fresh(result0) && isTypeByte(S_in[old(S_pos)]) && result0.Type == byteType(S_in[old(S_pos)])
+//@ ensures {C01,C02} err == nil && result0 != nil && isLine(result0.Type) ==> result0.array == nil && streq(string(result0.bytes), lineStr(old(S_pos) + 1)) && S_pos == afterLine(old(S_pos) + 1)
+//@ ensures {C01,C02} err == nil && result0 != nil && result0.Type == BulkMessage ==> result0.array == nil && atoiOK(lineStr(old(S_pos) + 1))
+//@ ensures {C01,C02} err == nil && result0 != nil && result0.Type == BulkMessage && atoi(lineStr(old(S_pos) + 1)) < 0 ==> result0.bytes == nil && S_pos == afterLine(old(S_pos) + 1)
+//@ ensures {C01,C02} err == nil && result0 != nil && result0.Type == BulkMessage && atoi(lineStr(old(S_pos) + 1)) >= 0 ==> result0.bytes != nil && len(result0.bytes) == atoi(lineStr(old(S_pos) + 1)) && S_pos == afterLine(old(S_pos) + 1) + len(result0.bytes) + 2
+//@ ensures {C01,C02} err == nil && result0 != nil && result0.Type == BulkMessage && atoi(lineStr(old(S_pos) + 1)) >= 0 ==> forall i int :: 0 <= i && i < len(result0.bytes) ==> result0.bytes[i] == S_in[afterLine(old(S_pos) + 1) + i]
+//@ ensures {C01,C02} err == nil && result0 != nil && result0.Type == ArrayMessage ==> atoiOK(lineStr(old(S_pos) + 1)) && len(result0.array.msgs) == (atoi(lineStr(old(S_pos) + 1)) < 0 ? 0 : atoi(lineStr(old(S_pos) + 1)))
+//@ ensures {C01,C02} err == nil && result0 != nil && result0.Type == ArrayMessage && len(result0.array.msgs) == 0 ==> S_pos == afterLine(old(S_pos) + 1)
+//@ ensures {C01,C02} err == nil && result0 != nil && result0.Type == ArrayMessage && len(result0.array.msgs) > 0 ==> D_lo[result0.array.msgs[0]] == afterLine(old(S_pos) + 1) && S_pos == D_hi[result0.array.msgs[len(result0.array.msgs) - 1]]
+//@ ensures {C01,C02} err == nil && result0 != nil && result0.Type == ArrayMessage ==> forall k int :: 0 <= k && k + 1 < len(result0.array.msgs) ==> D_lo[result0.array.msgs[k + 1]] == D_hi[result0.array.msgs[k]]
+//@ ensures {C02} old(S_pos) < S_end && (S_in[old(S_pos)] == 43 || S_in[old(S_pos)] == 45 || S_in[old(S_pos)] == 58) ==> err == nil && result0 != nil
+//@ ensures {C02} old(S_pos) < S_end && S_in[old(S_pos)] == 36 && atoiOK(lineStr(old(S_pos) + 1)) && atoi(lineStr(old(S_pos) + 1)) < 0 ==> err == nil && result0 != nil
+//@ ensures {C02} old(S_pos) < S_end && S_in[old(S_pos)] == 36 && atoiOK(lineStr(old(S_pos) + 1)) && 0 <= atoi(lineStr(old(S_pos) + 1)) && atoi(lineStr(old(S_pos) + 1)) <= MaxBulkLength && afterLine(old(S_pos) + 1) + atoi(lineStr(old(S_pos) + 1)) + 2 <= S_end && S_in[afterLine(old(S_pos) + 1) + atoi(lineStr(old(S_pos) + 1))] == 13 && S_in[afterLine(old(S_pos) + 1) + atoi(lineStr(old(S_pos) + 1)) + 1] == 10 ==> err == nil && result0 != nil
+//@ ensures {C02} old(S_pos) == S_end ==> err == nil && result0 == nil
+//@ ensures {C02} N_fail >= old(N_fail)
+//@ ensures {C02} old(S_pos) < S_end && S_in[old(S_pos)] == 42 && atoiOK(lineStr(old(S_pos) + 1)) && atoi(lineStr(old(S_pos) + 1)) <= MaxArraySize && N_fail == old(N_fail) ==> err == nil && result0 != nil
+
+// ---------------------------------------------------------------- lemmas_verif.go (round trip: serializer output -> parser)
+
+//@ func verifRoundTripLine
+//@ requires parser != nil && parser.reader != nil && m != nil
+//@ requires 0 <= S_pos && S_pos <= S_end && S_end <= 17592186044416
+//@ requires isLine(m.Type) && noCRLF(m.bytes) && encLine(S_in, S_pos, m) && S_pos + encLineLen(m) <= S_end
+//@ assigns S_pos, requests, N_fail
+//@ ensures S_cr(old(S_pos) + 1) == old(S_pos) + 1 + len(m.bytes)
+//@ ensures err == nil && result0 != nil
+//@ ensures err == nil && result0 != nil ==> result0.Type == m.Type
+//@ ensures err == nil && result0 != nil ==> len(result0.bytes) == len(m.bytes)
+//@ ensures err == nil && result0 != nil ==> streq(string(result0.bytes), string(m.bytes))
+//@ ensures err == nil && result0 != nil ==> S_pos == old(S_pos) + encLineLen(m)
+//@ ensures {C01,C02} err == nil && result0 != nil && result0.Type == m.Type && streq(string(result0.bytes), string(m.bytes)) && S_pos == old(S_pos) + encLineLen(m)
+
+//@ func verifRoundTripBulk
+//@ requires parser != nil && parser.reader != nil && m != nil
+//@ requires 0 <= S_pos && S_pos <= S_end && S_end <= 17592186044416
+//@ requires m.Type == BulkMessage && m.bytes != nil && len(m.bytes) <= MaxBulkLength && encBulk(S_in, S_pos, m) && S_pos + encBulkLen(m) <= S_end
+//@ assigns S_pos, requests, N_fail
+//@ ensures S_cr(old(S_pos) + 1) == old(S_pos) + 1 + len(itoa(len(m.bytes)))
+//@ ensures streq(lineStr(old(S_pos) + 1), itoa(len(m.bytes)))
+//@ ensures atoiOK(lineStr(old(S_pos) + 1)) && atoi(lineStr(old(S_pos) + 1)) == len(m.bytes)
+//@ ensures err == nil && result0 != nil
+//@ ensures err == nil && result0 != nil ==> result0.Type == BulkMessage && result0.bytes != nil && len(result0.bytes) == len(m.bytes)
+//@ ensures err == nil && result0 != nil ==> S_pos == old(S_pos) + encBulkLen(m)
+//@ ensures err == nil && result0 != nil ==> streq(string(result0.bytes), string(m.bytes))
+//@ ensures {C01,C02} err == nil && result0 != nil && result0.Type == BulkMessage && result0.bytes != nil && streq(string(result0.bytes), string(m.bytes)) && S_pos == old(S_pos) + encBulkLen(m)
+
+//@ func verifRoundTripNull
+//@ requires parser != nil && parser.reader != nil
+//@ requires 0 <= S_pos && S_pos <= S_end && S_end <= 17592186044416
+//@ requires encNull(S_in, S_pos) && S_pos + 5 <= S_end
+//@ assigns S_pos, requests, N_fail
+//@ ensures S_cr(old(S_pos) + 1) == old(S_pos) + 3
+//@ ensures lineEnd(old(S_pos) + 1) == old(S_pos) + 3
+//@ ensures streq(lineStr(old(S_pos) + 1), "-1")
+//@ ensures atoiOK(lineStr(old(S_pos) + 1)) && atoi(lineStr(old(S_pos) + 1)) == -1
+//@ ensures err == nil
+//@ ensures {C01,C02} err == nil && result0 != nil && result0.Type == BulkMessage && result0.bytes == nil && S_pos == old(S_pos) + 5
+
+//@ func verifRoundTripTwo
+//@ requires parser != nil && parser.reader != nil && m1 != nil && m2 != nil
+//@ requires 0 <= S_pos && S_pos <= S_end && S_end <= 17592186044416
+//@ requires m1.Type == BulkMessage && m1.bytes != nil && len(m1.bytes) <= MaxBulkLength && encBulk(S_in, S_pos, m1)
+//@ requires m2.Type == BulkMessage && m2.bytes != nil && len(m2.bytes) <= MaxBulkLength && encBulk(S_in, S_pos + encBulkLen(m1), m2) && S_pos + encBulkLen(m1) + encBulkLen(m2) <= S_end
+//@ assigns S_pos, requests, N_fail
+//@ ensures S_cr(old(S_pos) + 1) == old(S_pos) + 1 + len(itoa(len(m1.bytes)))
+//@ ensures streq(lineStr(old(S_pos) + 1), itoa(len(m1.bytes)))
+//@ ensures S_cr(old(S_pos) + encBulkLen(m1) + 1) == old(S_pos) + encBulkLen(m1) + 1 + len(itoa(len(m2.bytes)))
+//@ ensures streq(lineStr(old(S_pos) + encBulkLen(m1) + 1), itoa(len(m2.bytes)))
+//@ ensures {C02} err == nil && result0 != nil && result1 != nil
+//@ ensures {C02} err == nil ==> streq(string(result0.bytes), string(m1.bytes))
+//@ ensures {C02} err == nil ==> streq(string(result1.bytes), string(m2.bytes))
+//@ ensures {C02} err == nil ==> S_pos == old(S_pos) + encBulkLen(m1) + encBulkLen(m2)
